@@ -1766,9 +1766,13 @@ fn run_case(loc: &mut Local, x: &VIx, rng: &mut Rng, f: &Fmt, v: &Val) {
         }
     }
     // 4. perturbed text: letter case of names, surplus white space where the format has some
-    if (f.can_case || f.can_ws) && rng.chance(1, 2) {
-        let do_case = f.can_case && (!f.can_ws || rng.chance(2, 3));
-        let do_ws = f.can_ws && (!do_case || rng.chance(1, 2));
+    // composites whose documented expansion contains white space (`%r` = `%I:%M:%S %p`,
+    // `%c` = `%a %b %e %T %Y`): surplus white space is also allowed at those inner positions
+    let comp_ws = f.pieces.iter().any(|p| p.spec == "%r" || p.spec == "%c");
+    let can_ws = f.can_ws || comp_ws;
+    if (f.can_case || can_ws) && rng.chance(1, 2) {
+        let do_case = f.can_case && (!can_ws || rng.chance(2, 3));
+        let do_ws = can_ws && (!do_case || rng.chance(1, 2));
         let mut joined = String::new();
         let mut pert = String::new();
         for p in &f.pieces {
@@ -1781,6 +1785,17 @@ fn run_case(loc: &mut Local, x: &VIx, rng: &mut Rng, f: &Fmt, v: &Val) {
             };
             joined.push_str(&s);
             match p.kind {
+                _ if do_ws && (p.spec == "%r" || p.spec == "%c") => {
+                    let t = if do_case { flip_case(rng, &s) } else { s.clone() };
+                    let mut prev_space = false;
+                    for ch in t.chars() {
+                        if prev_space && ch != ' ' {
+                            pert.push_str(&random_ws(rng, 1));
+                        }
+                        prev_space = ch == ' ';
+                        pert.push(ch);
+                    }
+                }
                 PK::Name if do_case => pert.push_str(&flip_case(rng, &s)),
                 PK::Ws if do_ws => {
                     let (a, b) = if rng.chance(1, 2) { (1, 0) } else { (0, 1) };
